@@ -175,7 +175,11 @@ class SimRef:
 
     def notifyOnSystemRegistrationChanges(self, addr, startHandling=True):
         if startHandling:
+            self.sim.ever_registered = True
             self.sim.convention_listeners.add(key(addr))
+            # systems that are already members of the convention are announced to a new listener (observed on multiprocTCPBase)
+            for name, caps in self.sim.systems.items():
+                self.sim._convention_update(key(addr), name, caps, True)
         else:
             self.sim.convention_listeners.discard(key(addr))
 
@@ -187,9 +191,10 @@ class SimRef:
 
 
 class Rec:
-    __slots__ = ("inst", "addr", "parent", "process", "alive", "cls", "children")
+    __slots__ = ("inst", "addr", "parent", "process", "alive", "cls", "children", "aborted")
 
     def __init__(self, inst, addr, parent, process, cls):
+        self.aborted = False
         self.inst, self.addr, self.parent, self.process, self.alive, self.cls, self.children = inst, addr, parent, process, True, cls, []
 
 
@@ -230,6 +235,10 @@ class ActorSim:
         # executor thread of the same actor that is runnable at this instant may be stepped (one deviation each)
         self.line_preempt = None
         self.duplicate_child_exited = True
+        self.unavailable = set()  # processes (hosts) on which no actor can be created any more
+        self.ever_registered = False
+        self.strict_placement = False  # True: an "ip" requirement must be satisfied by a member system of the convention
+        self.systems = {}  # member systems of the convention: name (= process name of the actors placed there) -> capabilities
 
     # ---------------------------------------------------------------- actors
     def offset_of(self, k):
@@ -249,6 +258,17 @@ class ActorSim:
                 process = requirements["ip"]
             else:
                 process = "coordinator"
+        if process in self.unavailable or (self.strict_placement and requirements and "ip" in requirements and process not in self.systems):
+            # no actor system satisfies the requirements (the daemon has left): as observed on the real multiprocTCPBase the parent gets
+            # ChildActorExited for the address and every message sent to it comes back as PoisonMessage ("Child Aborted")
+            rec = Rec(None, addr, parent, process, cls)
+            rec.alive = False
+            rec.aborted = True
+            self.actors[key(addr)] = rec
+            if parent is not None and key(parent) in self.actors and self.actors[key(parent)].alive:
+                self.seq += 1
+                self.channels.setdefault(("system", key(parent)), collections.deque()).append((self.seq, ta.ChildActorExited(addr)))
+            return addr
         saved = CLOCK.offset
         CLOCK.offset = self.offsets.get(process, 0.0)
         try:
@@ -296,11 +316,42 @@ class ActorSim:
         """external endpoint (race control / the system) sends a message"""
         self.send(self.external, target, msg)
 
+    # ---------------------------------------------------------------- convention of actor systems (remote Rally daemons)
+    def _convention_update(self, listener_key, name, caps, added):
+        self.seq += 1
+        self.channels.setdefault(("system", listener_key), collections.deque()).append(
+            (self.seq, ta.ActorSystemConventionUpdate(ta.ActorAddress(f"admin-{name}"), dict(caps), added))
+        )
+
+    def system_joins(self, name, caps):
+        """a remote actor system registers with the convention leader: every registered listener is told"""
+        self.systems[name] = dict(caps)
+        self.unavailable.discard(name)
+        for lk in sorted(self.convention_listeners):
+            self._convention_update(lk, name, caps, True)
+
+    def system_leaves(self, name):
+        """a member system is shut down.  As observed on the real multiprocTCPBase (tools/conformance_thespian.py): listeners get
+        ActorSystemConventionUpdate(remoteAdded=False); every actor hosted there is gone and its parent gets ChildActorExited (no order
+        between the two); messages to the dead actors vanish; a later createActor that only this system could satisfy yields an
+        aborted child (ChildActorExited to the parent, PoisonMessage for every message sent to it)"""
+        caps = self.systems.pop(name, {})
+        self.unavailable.add(name)
+        for lk in sorted(self.convention_listeners):
+            self._convention_update(lk, name, caps, False)
+        for k, rec in list(self.actors.items()):
+            if rec.alive and rec.process == name:
+                self.kill_actor(k)
+
     # ---------------------------------------------------------------- delivery
     def deliver(self, sender_key, receiver_key, msg):
         if self.on_deliver is not None:
             self.on_deliver(self, receiver_key, msg)
         rec = self.actors.get(receiver_key)
+        if rec is not None and rec.aborted:
+            if sender_key in self.actors and self.actors[sender_key].alive:
+                self.send(rec.addr, self.actors[sender_key].addr, ta.PoisonMessage(msg, "Child Aborted"))
+            return
         if rec is None or not rec.alive:
             self.dead_letters.append((receiver_key, type(msg).__name__))
             return
@@ -356,7 +407,9 @@ class ActorSim:
                 self.send(rec.addr, child, ta.ActorExitRequest())
         if notify and rec.parent is not None and key(rec.parent) in self.actors and self.actors[key(rec.parent)].alive:
             self.seq += 1
-            self.channels.setdefault(("system", key(rec.parent)), collections.deque()).append((self.seq, ta.ChildActorExited(rec.addr)))
+            # a child that exits on request reports it itself; a child whose process / actor system is gone is reported by the reaper:
+            # the two kinds do not share a channel (no order between e.g. a convention update and the loss of a child)
+            self.channels.setdefault(("system" if graceful else "system-reaper", key(rec.parent)), collections.deque()).append((self.seq, ta.ChildActorExited(rec.addr)))
             if graceful and self.duplicate_child_exited:
                 # Thespian's multiproc bases notify the parent twice when a child exits on request (once by the child itself, once when
                 # its process is reaped): observed on multiprocTCPBase and multiprocQueueBase, see tools/conformance_thespian.py.
